@@ -1,1 +1,432 @@
-// harness stub
+//! C13 harness (child module of `astria_sequencer::mempool`, compiled only with `--features verif` in test builds).
+//!
+//! Model-based walk over the real `Mempool`: random operations (insert with the chain state shown, invalid-removal, block
+//! inclusion, balance / nonce moves, fee re-costing, expiry, maintenance) against a scripted chain state, with a
+//! structure walker that reads the private pending / parked maps under the mempool's own lock after every operation
+//! and a status sweep over every accepted transaction id. Everything is recorded; /verif/lib/checkers/c13.py judges.
+#![allow(clippy::pedantic, clippy::arithmetic_side_effects, dead_code, unused_imports)]
+
+#[path = "/verif/harness/common/vlog.rs"]
+mod vlog;
+
+use std::{
+    collections::{
+        BTreeMap,
+        HashMap,
+        HashSet,
+    },
+    sync::Arc,
+    time::Duration,
+};
+
+use astria_core::{
+    crypto::SigningKey,
+    primitive::v1::{
+        asset::{
+            Denom,
+            IbcPrefixed,
+        },
+        RollupId,
+        TransactionId,
+    },
+    protocol::{
+        fees::v1::FeeComponents,
+        transaction::v1::action::{
+            FeeChange,
+            RollupDataSubmission,
+            Transfer,
+        },
+    },
+};
+use rand::{
+    Rng as _,
+    RngCore as _,
+    SeedableRng as _,
+};
+use rand_chacha::ChaChaRng;
+use serde_json::json;
+use tendermint::abci::types::ExecTxResult;
+use vlog::VLog;
+
+use super::{
+    transactions_container::{
+        TransactionsContainer as _,
+        TransactionsForAccount as _,
+    },
+    *,
+};
+use crate::{
+    accounts::{
+        StateReadExt as _,
+        StateWriteExt as _,
+    },
+    assets::StateWriteExt as _,
+    checked_transaction::CheckedTransaction,
+    fees::StateWriteExt as _,
+    test_utils::{
+        astria_address,
+        Fixture,
+    },
+};
+
+struct Acct {
+    key: SigningKey,
+    addr: [u8; ADDRESS_LENGTH],
+    name: String,
+    next_build_nonce: u32,
+}
+
+struct Known {
+    tx: Arc<CheckedTransaction>,
+    acct: usize,
+    nonce: u32,
+    group: String,
+}
+
+fn costs_json(c: &HashMap<IbcPrefixed, u128>) -> serde_json::Value {
+    let mut m = serde_json::Map::new();
+    for (a, n) in c {
+        if *n > 0 {
+            m.insert(a.to_string(), json!(n.to_string()));
+        }
+    }
+    m.into()
+}
+
+fn new_mempool(metrics: &'static crate::Metrics, ttl: Duration, parked_max: usize) -> Mempool {
+    let inner = MempoolInner {
+        pending: PendingTransactions::new(ttl),
+        parked: ParkedTransactions::new(ttl, parked_max),
+        comet_bft_removal_cache: RemovalCache::new(NonZeroUsize::try_from(REMOVAL_CACHE_SIZE).unwrap()),
+        recent_execution_results: RecentExecutionResults::new(1_000),
+        contained_txs: HashSet::new(),
+        metrics,
+    };
+    Mempool { inner: Arc::new(RwLock::new(inner)) }
+}
+
+/// Reads the private structure under the mempool's own write lock (a quiescent point: no operation is in flight).
+async fn walk(mempool: &Mempool, accts: &[Acct]) -> serde_json::Value {
+    let inner = mempool.inner.write().await;
+    let name = |a: &[u8; ADDRESS_LENGTH]| accts.iter().find(|x| &x.addr == a).map(|x| x.name.clone()).unwrap_or_else(|| vlog::hex(a));
+    let mut pending = serde_json::Map::new();
+    for (a, acc) in inner.pending.txs() {
+        pending.insert(name(a), acc.txs().iter().map(|(n, t)| json!([n, t.id().to_string()])).collect());
+    }
+    let mut parked = serde_json::Map::new();
+    for (a, acc) in inner.parked.txs() {
+        parked.insert(name(a), acc.txs().iter().map(|(n, t)| json!([n, t.id().to_string()])).collect());
+    }
+    let mut contained: Vec<String> = inner.contained_txs.iter().map(ToString::to_string).collect();
+    contained.sort();
+    json!({"pending": pending, "parked": parked, "contained": contained, "len": inner.len()})
+}
+
+fn status_str(s: Option<TransactionStatus>) -> String {
+    match s {
+        None => "none".into(),
+        Some(TransactionStatus::Pending) => "pending".into(),
+        Some(TransactionStatus::Parked) => "parked".into(),
+        Some(TransactionStatus::Removed(r)) => format!("removed:{}", format!("{r:?}").split(|c: char| !c.is_alphanumeric()).next().unwrap_or("")),
+    }
+}
+
+#[tokio::test(flavor = "multi_thread", worker_threads = 2)]
+async fn model_walk() {
+    let log = VLog::open("c13-mempool");
+    let (shard, shards) = vlog::shard();
+    let runs = vlog::env_u64("VERIF_RUNS", 4);
+    let ops = vlog::env_u64("VERIF_OPS", 400);
+    for r in 0..runs {
+        let run = shard + r * shards;
+        one_run(&log, run, ops).await;
+    }
+    log.end();
+}
+
+async fn one_run(log: &VLog, run: u64, ops: u64) {
+    let mut rng = ChaChaRng::seed_from_u64(vlog::seed().wrapping_mul(7919).wrapping_add(run) ^ 0xC13);
+    let mut fixture = Fixture::default_initialized().await;
+    let metrics = fixture.metrics();
+    let ttl_ms = if rng.gen_bool(0.5) { 40 } else { 240_000 };
+    let parked_max = [3usize, 20, 100][rng.gen_range(0..3)];
+    let mempool = new_mempool(metrics, Duration::from_millis(ttl_ms), parked_max);
+    let assets: Vec<Denom> = vec!["nria".parse().unwrap(), "denom-x".parse().unwrap(), "denom-y".parse().unwrap()];
+    for a in &assets[1..] {
+        fixture.state_mut().put_ibc_asset(a.clone().unwrap_trace_prefixed()).unwrap();
+    }
+    let nacct = rng.gen_range(2..=5);
+    let mut accts: Vec<Acct> = (0..nacct)
+        .map(|i| {
+            let key = SigningKey::new(&mut rng);
+            Acct { addr: key.address_bytes(), key, name: format!("M{i}"), next_build_nonce: 0 }
+        })
+        .collect();
+    for a in &accts {
+        for (k, d) in assets.iter().enumerate() {
+            let bal = match rng.gen_range(0..4) {
+                0 => 0u128,
+                1 => rng.gen_range(1..5_000),
+                _ => rng.gen_range(10_000..2_000_000),
+            };
+            if k == 0 || bal > 0 {
+                fixture.state_mut().put_account_balance(&a.addr, d, if k == 0 { bal.max(50_000) } else { bal }).unwrap();
+            }
+        }
+    }
+    // rollup data fee: base + mult * len in nria; transfer fee as configured by the fixture
+    let mut rd_fee = (rng.gen_range(0..200u128), rng.gen_range(0..30u128));
+    fixture.state_mut().put_fees(FeeComponents::<RollupDataSubmission>::new(rd_fee.0, rd_fee.1)).unwrap();
+    log.ev(json!({"kind": "mp_start", "run": run, "ttl_ms": ttl_ms, "parked_max": parked_max, "per_account_parked_max": MAX_PARKED_TXS_PER_ACCOUNT,
+        "accounts": accts.iter().map(|a| a.name.clone()).collect::<Vec<_>>(), "assets": assets.iter().map(|d| d.to_ibc_prefixed().to_string()).collect::<Vec<_>>()}));
+
+    let mut known: HashMap<String, Known> = HashMap::new();
+    let mut live_order: Vec<String> = vec![]; // ids ever accepted, for sweeps
+    let mut prebuilt: Vec<(usize, Arc<CheckedTransaction>)> = vec![];
+    let mut height = 10u64;
+
+    // forced scenario: a burst of consecutive cheap transactions for one account, then its balance drained
+    let mut burst: Option<(usize, u32)> = None;
+    let mut drain: Option<usize> = None;
+    for op in 0..ops {
+        let mut choice = rng.gen_range(0..100);
+        if burst.is_none() && drain.is_none() && rng.gen_bool(0.01) {
+            burst = Some((rng.gen_range(0..nacct), rng.gen_range(17..24)));
+        }
+        if burst.is_some() {
+            choice = 0;
+        } else if drain.is_some() {
+            choice = 62;
+        }
+        let mut maintenance: Option<(bool, HashMap<TransactionId, Arc<ExecTxResult>>)> = None;
+        let mut opj;
+        if choice < 50 {
+            // ---------------- insert
+            let mut ai = rng.gen_range(0..accts.len());
+            let mut variant = rng.gen_range(0..4);
+            let in_burst = burst.is_some();
+            if let Some((a, left)) = burst {
+                ai = a;
+                variant = 3;
+                burst = if left > 1 { Some((a, left - 1)) } else { None };
+                if burst.is_none() {
+                    drain = Some(a);
+                }
+            }
+            let (signer_key, signer_addr) = if variant == 1 {
+                (crate::test_utils::SUDO.clone(), crate::test_utils::SUDO.address_bytes())
+            } else {
+                (accts[ai].key.clone(), accts[ai].addr)
+            };
+            let chain_nonce = fixture.state().get_account_nonce(&signer_addr).await.unwrap();
+            let in_pool = {
+                let inner = mempool.inner.read().await;
+                inner.pending.txs().get(&signer_addr).map_or(0, |a| a.txs().len()) as u32
+            };
+            let reuse = !in_burst && !prebuilt.is_empty() && rng.gen_bool(0.12);
+            let (tx, kind) = if reuse {
+                let k = rng.gen_range(0..prebuilt.len());
+                (prebuilt[k].1.clone(), "reinsert_or_stale")
+            } else {
+                let nonce = match if in_burst { 9 } else { rng.gen_range(0..10) } {
+                    0 => chain_nonce + in_pool + 1 + rng.gen_range(0..3), // gap
+                    1 => chain_nonce + rng.gen_range(0..=in_pool),        // taken or current
+                    2 => chain_nonce + in_pool + rng.gen_range(0..20),    // maybe far ahead
+                    _ => chain_nonce + in_pool,
+                };
+                let b = fixture.checked_tx_builder().with_signer(signer_key.clone()).with_nonce(nonce);
+                let b = match variant {
+                    0 => {
+                        let asset = assets[rng.gen_range(0..assets.len())].clone();
+                        let amount = match rng.gen_range(0..4) {
+                            0 => rng.gen_range(0..50),
+                            1 => rng.gen_range(1_000..100_000),
+                            _ => rng.gen_range(1..5_000),
+                        };
+                        b.with_action(Transfer { to: astria_address(&[9; 20]), amount, asset, fee_asset: assets[0].clone() })
+                    }
+                    1 => b.with_action(FeeChange::Transfer(FeeComponents::new(rng.gen_range(0..20), 0))),
+                    _ => {
+                        let len = if in_burst { 1 } else { rng.gen_range(1..400) };
+                        b.with_rollup_data_submission(vec![7u8; len])
+                    }
+                };
+                (b.build().await, "fresh")
+            };
+            // the FeeChange variant is signed by SUDO, which is not one of our accounts: map it
+            let signer_addr = *tx.address_bytes();
+            let ai = match accts.iter().position(|a| a.addr == signer_addr) {
+                Some(i) => i,
+                None => {
+                    accts.push(Acct { key: crate::test_utils::SUDO.clone(), addr: signer_addr, name: "SUDO".into(), next_build_nonce: 0 });
+                    accts.len() - 1
+                }
+            };
+            let shown_nonce = fixture.state().get_account_nonce(&accts[ai].addr).await.unwrap();
+            let shown_balances = get_account_balances(fixture.state(), &accts[ai].addr).await.unwrap();
+            let costs = tx.total_costs(fixture.state()).await.unwrap_or_default();
+            let id = tx.id().to_string();
+            // like the only production caller (CheckTx): a transaction that is currently tracked is not inserted again
+            if matches!(mempool.transaction_status(tx.id()).await, Some(TransactionStatus::Pending | TransactionStatus::Parked)) {
+                log.ev(json!({"kind": "mp_skip", "run": run, "n": op, "id": id, "why": "already tracked (CheckTx returns AlreadyInPending/AlreadyInParked)"}));
+                continue;
+            }
+            let res = mempool.insert(tx.clone(), shown_nonce, &shown_balances, costs.clone()).await;
+            let result = match &res {
+                Ok(InsertionStatus::AddedToPending) => "pending".to_string(),
+                Ok(InsertionStatus::AddedToParked) => "parked".to_string(),
+                Err(e) => format!("err:{e:?}"),
+            };
+            if res.is_ok() {
+                if !known.contains_key(&id) {
+                    live_order.push(id.clone());
+                }
+                known.insert(id.clone(), Known { tx: tx.clone(), acct: ai, nonce: tx.nonce(), group: format!("{:?}", tx.group()) });
+                if !reuse && rng.gen_bool(0.3) {
+                    prebuilt.push((ai, tx.clone()));
+                }
+            }
+            opj = json!({"op": "insert", "kind": kind, "acct": accts[ai].name, "id": id, "nonce": tx.nonce(), "group": format!("{:?}", tx.group()),
+                "costs": costs_json(&costs), "shown_nonce": shown_nonce, "shown_balances": costs_json(&shown_balances), "result": result});
+        } else if choice < 62 {
+            // ---------------- a block: include a prefix of the builder queue
+            let queue = mempool.builder_queue().await;
+            let take = if queue.is_empty() { 0 } else { rng.gen_range(0..=queue.len()) };
+            let mut results = HashMap::new();
+            let mut included = vec![];
+            let mut next: HashMap<[u8; ADDRESS_LENGTH], u32> = HashMap::new();
+            for tx in queue.iter().take(take) {
+                let addr = *tx.address_bytes();
+                let cur = match next.get(&addr) {
+                    Some(n) => *n,
+                    None => fixture.state().get_account_nonce(&addr).await.unwrap(),
+                };
+                if tx.nonce() != cur {
+                    continue; // would fail execution; the proposer skips it
+                }
+                // pay
+                let costs = tx.total_costs(fixture.state()).await.unwrap_or_default();
+                let mut affordable = true;
+                for (asset, c) in &costs {
+                    let b = fixture.state().get_account_balance(&addr, asset).await.unwrap();
+                    if b < *c {
+                        affordable = false;
+                    }
+                }
+                if !affordable {
+                    continue;
+                }
+                for (asset, c) in &costs {
+                    let b = fixture.state().get_account_balance(&addr, asset).await.unwrap();
+                    fixture.state_mut().put_account_balance(&addr, asset, b - c).unwrap();
+                }
+                next.insert(addr, cur + 1);
+                results.insert(*tx.id(), Arc::new(ExecTxResult::default()));
+                included.push(tx.id().to_string());
+            }
+            for (addr, n) in next {
+                fixture.state_mut().put_account_nonce(&addr, n).unwrap();
+            }
+            height += 1;
+            opj = json!({"op": "block", "height": height, "queue_len": queue.len(), "included": included});
+            maintenance = Some((false, results));
+        } else if choice < 72 {
+            // ---------------- balance move
+            let mut ai = rng.gen_range(0..accts.len());
+            let mut asset = assets[rng.gen_range(0..assets.len())].clone();
+            let mut pick = rng.gen_range(0..5);
+            if let Some(a) = drain.take() {
+                ai = a;
+                asset = assets[0].clone();
+                pick = 0;
+            }
+            let old = fixture.state().get_account_balance(&accts[ai].addr, &asset).await.unwrap();
+            let new = match pick {
+                0 => 0,
+                1 => old / 2,
+                2 => old.saturating_sub(rng.gen_range(0..2_000)),
+                3 => old + rng.gen_range(0..50_000),
+                _ => rng.gen_range(0..3_000),
+            };
+            fixture.state_mut().put_account_balance(&accts[ai].addr, &asset, new).unwrap();
+            opj = json!({"op": "balance", "acct": accts[ai].name, "asset": asset.to_ibc_prefixed().to_string(), "old": old.to_string(), "new": new.to_string()});
+            maintenance = Some((false, HashMap::new()));
+        } else if choice < 78 {
+            // ---------------- nonce jump (transactions of this account got included through another node)
+            let ai = rng.gen_range(0..accts.len());
+            let old = fixture.state().get_account_nonce(&accts[ai].addr).await.unwrap();
+            let new = old + rng.gen_range(1..4);
+            fixture.state_mut().put_account_nonce(&accts[ai].addr, new).unwrap();
+            opj = json!({"op": "nonce_jump", "acct": accts[ai].name, "old": old, "new": new});
+            maintenance = Some((false, HashMap::new()));
+        } else if choice < 84 {
+            // ---------------- fee change + recost
+            rd_fee = (rng.gen_range(0..400u128), rng.gen_range(0..60u128));
+            fixture.state_mut().put_fees(FeeComponents::<RollupDataSubmission>::new(rd_fee.0, rd_fee.1)).unwrap();
+            opj = json!({"op": "fee_change", "base": rd_fee.0.to_string(), "mult": rd_fee.1.to_string()});
+            maintenance = Some((true, HashMap::new()));
+        } else if choice < 92 {
+            // ---------------- invalid-removal of a live transaction
+            let live: Vec<&String> = live_order.iter().collect();
+            if live.is_empty() {
+                continue;
+            }
+            let id = live[rng.gen_range(0..live.len())].clone();
+            let k = &known[&id];
+            mempool.remove_tx_invalid(k.tx.clone(), RemovalReason::FailedExecution("verif".into())).await;
+            opj = json!({"op": "remove_invalid", "id": id, "acct": accts[k.acct].name, "nonce": k.nonce});
+        } else if choice < 96 {
+            // ---------------- time passes
+            if ttl_ms < 1000 {
+                tokio::time::sleep(Duration::from_millis(ttl_ms + 15)).await;
+                opj = json!({"op": "sleep_past_ttl"});
+                maintenance = Some((false, HashMap::new()));
+            } else {
+                opj = json!({"op": "maintenance_only"});
+                maintenance = Some((false, HashMap::new()));
+            }
+        } else {
+            opj = json!({"op": "maintenance_only"});
+            maintenance = Some((false, HashMap::new()));
+        }
+        let mut recosted = serde_json::Value::Null;
+        if let Some((recost, results)) = maintenance {
+            mempool.run_maintenance(fixture.state(), recost, results, height).await;
+            opj["maintenance"] = json!(true);
+            // chain state the maintenance run saw, per account
+            let mut shown = serde_json::Map::new();
+            for a in &accts {
+                let n = fixture.state().get_account_nonce(&a.addr).await.unwrap();
+                let b = get_account_balances(fixture.state(), &a.addr).await.unwrap();
+                shown.insert(a.name.clone(), json!({"nonce": n, "balances": costs_json(&b)}));
+            }
+            opj["chain"] = shown.into();
+            if recost {
+                let mut m = serde_json::Map::new();
+                for (id, k) in &known {
+                    m.insert(id.clone(), costs_json(&k.tx.total_costs(fixture.state()).await.unwrap_or_default()));
+                }
+                recosted = m.into();
+            }
+        }
+        // observation at the quiescent point
+        let w = walk(&mempool, &accts).await;
+        let queue: Vec<serde_json::Value> = mempool
+            .builder_queue()
+            .await
+            .iter()
+            .map(|t| {
+                let an = accts.iter().find(|a| &a.addr == t.address_bytes()).map(|a| a.name.clone()).unwrap_or_default();
+                json!([an, t.nonce(), format!("{:?}", t.group()), t.id().to_string()])
+            })
+            .collect();
+        let mut status = serde_json::Map::new();
+        for id in &live_order {
+            let tid = *known[id].tx.id();
+            status.insert(id.clone(), json!(status_str(mempool.transaction_status(&tid).await)));
+        }
+        log.ev(json!({"kind": "mp_op", "run": run, "n": op, "op": opj, "walk": w, "queue": queue, "status": status, "recosted": recosted}));
+    }
+    log.ev(json!({"kind": "mp_end", "run": run, "ops": ops}));
+    log.flush();
+}
